@@ -134,7 +134,7 @@ package genetics
 //@ pred wfGenome(g *Genome) = g != nil && nonNilGenes(g.Genes) && geneLinksWF(g.Genes) && nonNilNodes(g.Nodes) && sortedLT(g.Genes) && noDupLinks(g.Genes) && sortedNodesLT(g.Nodes) && endsAreOwnNodes(g) && noSensorTargets(g) && idIndexWF(g)
 //@ func (*Genome).duplicate
 //@   props C06 C10 C01
-//@   ensures [closure] wfGenome(g) ==> wfGenome(result0)
+//@   ensures_local [closure] wfGenome(g) ==> wfGenome(result0)
 //@   requires g != nil && nonNilTraits(g.Traits) && nonNilNodes(g.Nodes) && nonNilGenes(g.Genes) && geneLinksWF(g.Genes)
 //@   requires endpointsAreNodes(g)
 //@   requires sortedNodesLT(g.Nodes)
@@ -607,7 +607,7 @@ package genetics
 //@   ensures [traits] len(result0.Traits) == len(g.Traits) && (forall i :: 0 <= i && i < len(g.Traits) ==> result0.Traits[i].Id == g.Traits[i].Id && (forall k :: 0 <= k && k < len(g.Traits[i].Params) ==> result0.Traits[i].Params[k] == (g.Traits[i].Params[k] + og.Traits[i].Params[k]) / 2.0))
 //@   ensures [once] sortedLT(result0.Genes)
 //@   ensures [nodesUnique] sortedNodesLT(result0.Nodes)
-//@   ensures [noDupLinks] noDupLinks(result0.Genes)
+//@   ensures_local [noDupLinks] noDupLinks(result0.Genes)
 //@   ensures [provenance] forall k :: 0 <= k && k < len(result0.Genes) ==> (exists a :: 0 <= a && a < len(g.Genes) && fromGene(result0.Genes[k], g.Genes[a])) || (exists b :: 0 <= b && b < len(og.Genes) && fromGene(result0.Genes[k], og.Genes[b]))
 //@   ensures [both] forall a, b :: 0 <= a && a < len(g.Genes) && 0 <= b && b < len(og.Genes) && g.Genes[a].InnovationNum == og.Genes[b].InnovationNum ==> (exists k :: 0 <= k && k < len(result0.Genes) && result0.Genes[k].InnovationNum == g.Genes[a].InnovationNum)
 //@   ensures [fitterA] better1(fitness1, fitness2, g, og) ==> (forall a :: 0 <= a && a < len(g.Genes) ==> (exists k :: 0 <= k && k < len(result0.Genes) && result0.Genes[k].InnovationNum == g.Genes[a].InnovationNum))
